@@ -18,7 +18,9 @@ from ..cfg import guards_of
 from ..core import Ctx
 from ..srcmodel import walk_no_nested
 
-MODULES = ("lexer", "parser", "nodes", "idtracking", "optimizer", "compiler", "ext", "meta", "visitor")
+# filters / tests / utils belong to the compile path too: a filter or test applied to constant
+# operands is evaluated by the optimizer and the repr() of its result is written into the source
+MODULES = ("lexer", "parser", "nodes", "idtracking", "optimizer", "compiler", "ext", "meta", "visitor", "filters", "tests", "utils")
 SET_CTORS = ("set", "frozenset")
 # reviewed order-insensitive iterations over sets: (module, function, iterable) -> why
 ORDER_FREE = {
